@@ -24,6 +24,9 @@ noncomputable instance : NumOps ℝ where
   lt := fun a b => decide (a < b)
   le := fun a b => decide (a ≤ b)
   isNaN := fun _ => false
+  abs := fun x => |x|
+  tol9 := 1e-9
+  max := fun x y => Max.max x y
 
 noncomputable instance : LawfulNum ℝ where
   Pos := fun x => 0 < x
